@@ -75,14 +75,20 @@ def _job(args):
 
         def fn(S):
             mod.harness(S, params)
+        # the witness of EVERY completed path is kept and re-run on the
+        # unstubbed code (real numpy, real dict / lru_cache / interpreter): a
+        # differential check of the engine's model against the interpreter,
+        # path by path (measured: 3-7 ms per replay, < 5 % of the exploration)
+        replay_all = os.environ.get('VERIF_REPLAY_ALL', '1') != '0'
         res = symx.explore(fn, budget_s=budget, known=known,
                            per_path_timeout=getattr(mod, 'PER_PATH', 60.0),
-                           keep_samples=3)
+                           keep_samples=10 ** 9 if replay_all else 3)
         res['name'] = name
         res['params'] = params
         # validate completed-path witnesses on the unstubbed code
         val_ok = val_bad = 0
         bad = []
+        t_val = time.monotonic()
         for w in res['samples']:
             try:
                 out = symx.replay(fn, w, known)
@@ -92,9 +98,12 @@ def _job(args):
                 val_ok += 1
             else:
                 val_bad += 1
-                bad.append({'witness': w, 'outcome': list(out)})
+                if len(bad) < 3:
+                    bad.append({'witness': w, 'outcome': list(out)})
         res['validated'] = val_ok
         res['validation_mismatch'] = bad
+        res['validation_s'] = round(time.monotonic() - t_val, 2)
+        res['samples'] = res['samples'][:3]
         return res
     except BaseException as e:  # noqa
         return {'name': '%s[%d]' % (modname, idx), 'error':
